@@ -9,7 +9,7 @@
 //! sides, integer extremes, batch cuts (incl. empty batches), 1–3 source partitions per side and
 //! `Pending` jitter; operator ∈ {HashJoin CollectLeft, HashJoin Partitioned (inputs hash
 //! repartitioned by `RepartitionExec`), HashJoin null-aware (CollectLeft; LeftAnti/RightAnti, single
-//! key, no filter), SortMergeJoin (inputs key-partitioned and sorted by the harness under all four
+//! key; LeftAnti also with a residual filter), SortMergeJoin (inputs key-partitioned and sorted by the harness under all four
 //! sort-option combinations per key), NestedLoopJoin (key equality folded into the filter, or pure
 //! filter), SymmetricHashJoin (single partition / partitioned; optionally with inputs sorted on the
 //! payload + declared sort exprs so the pruning path runs), CrossJoin, PiecewiseMergeJoin (buffered
@@ -24,9 +24,10 @@
 //! Oracle: `match(l,r) := keys equal under the NullEquality ∧ filter(l,r) IS TRUE`; per join type the
 //! documented result (JoinType rustdoc): pairs, NULL-padded unmatched rows of preserved sides,
 //! semi/anti = rows with / without a match, mark = every row + non-null Boolean "has a match".
-//! Null-aware anti (rustdoc comment in hash_join/stream.rs, = SQL `NOT IN`): if the other side is
-//! empty every row qualifies; else if the other side has a NULL key nothing qualifies; else rows with
-//! a non-NULL key that matches nothing. With `fetch`: output ⊆ expected, ≥ min(fetch, |expected|)
+//! Null-aware anti (rustdoc comment in hash_join/stream.rs, = SQL `NOT IN`; with a residual filter =
+//! correlated `x NOT IN (SELECT y FROM other WHERE filter)`, which is the plan the planner builds for
+//! it): with S = other-side rows passing the filter for this row, the row qualifies iff S is empty, or
+//! its key is non-NULL and S holds neither a NULL nor an equal key. With `fetch`: output ⊆ expected, ≥ min(fetch, |expected|)
 //! rows, ≤ fetch per output partition.
 //!
 //! Outcomes: constructor / execute-time `NotImplemented` or `Plan` errors = discard (histogrammed
@@ -37,15 +38,52 @@
 //! NULL key present).
 //!
 //! Deviations from DESIGN.md: crate is `vf-join` (not vf-plan); null-aware joins are generated only
-//! in CollectLeft mode and without a residual filter — `HashJoinExecBuilder` also accepts
-//! null-aware LeftAnti in Partitioned mode and with a filter, but no planner path produces these
-//! (physical_planner.rs / join_selection.rs force CollectLeft) and the NOT-IN meaning of a
-//! null-aware join with an extra filter is not documented, so they are outside the domain.
+//! in CollectLeft mode — `HashJoinExecBuilder` also accepts null-aware LeftAnti in Partitioned mode,
+//! but no planner path produces it (physical_planner.rs / join_selection.rs force CollectLeft) and
+//! its per-partition NULL flags cannot implement NOT IN, so it is outside the domain.
 //! PiecewiseMergeJoin is generated only for the six supported join types; the four unsupported ones
 //! are pinned as clean `NotImplemented` in `extra()`.
 //!
-//! Sensitivity probes (mkpatch + mutrun, `./check C05 quick`): see bottom of this header
-//! (filled in after running them).
+//! Genuine defects found (all reproduced on the unchanged tree, recorded in
+//! /verif/known_findings.json, cases under /verif/regressions/C05/c05/, repairs under /verif/fixes/;
+//! with the four repairs applied `c05 quick` passes seeds 0-2 with every exclusion switched off):
+//!  * `nlj-spill-fallback:right-side-emission-skipped` — NestedLoopJoin memory-limited fallback: a
+//!    pass that finds no further left batch (last left batch hit the limit, or left side empty)
+//!    jumps to Done and skips EmitGlobalRightUnmatched: RIGHT/FULL/RIGHT SEMI/ANTI/MARK lose their
+//!    deferred right-side output. Fix: fixes/C05-nlj-spill-fallback-right-emission.diff.
+//!  * `nlj-spill-fallback:multi-right-partitions:left-emitting` — same fallback with > 1 right
+//!    partitions: LEFT/LEFT SEMI/ANTI/MARK emit left rows per partition from partial matches
+//!    (acknowledged as "latent issue" in a code comment). Fix (fallback disabled for these, as it
+//!    already is for FULL → clean ResourcesExhausted): fixes/C05-nlj-spill-fallback-multi-partition.diff.
+//!  * `shj:null-equals-null:null-key` — SymmetricHashJoin inserts NULL-key rows under a stale hash
+//!    (hashes_buffer resized but not cleared; create_hashes skips NULL slots) → lost matches under
+//!    NullEqualsNull. Fix: fixes/C05-shj-stale-hash-for-null-keys.diff.
+//!  * `hash-null-aware:left-anti:with-filter` — null-aware LeftAnti with a residual filter (the plan
+//!    of a correlated `a NOT IN (SELECT b FROM t2 WHERE t2.c < t1.c)`) applies its NULL / emptiness
+//!    tests globally instead of over the rows passing the filter: rows are lost (SQL repro in
+//!    known_findings.json returns no row instead of (2,20)). No repair patch: a correct version needs
+//!    per-build-row NULL tracking (or the planner must not choose the null-aware hash join when a
+//!    residual filter exists); described in the report.
+//! The four shapes are excluded from generation by `known_signature` (counted in
+//! `known_excluded`) until the repairs land.
+//!
+//! Sensitivity probes (tools/mkpatch + tools/mutrun; one mutated build carrying one mutation per
+//! operator, each operator checked separately with `VF_C05_OP=<op> VF_CASES=<that operator's share
+//! of the quick budget> vf-join c05 quick`; all exits 1 unless noted):
+//!  * M1 hash_join/stream.rs — every probe partition emits the unmatched build rows in CollectLeft
+//!    (`report_probe_completed()` result ignored): DETECTED after 2 cases (HashCollect/Left, 2 rows for 1).
+//!  * M2 sort_merge_join/materializing_stream.rs — streamed/buffered comparator built with
+//!    NullEqualsNull regardless of the join's NullEquality: DETECTED after 198 cases (Inner, NULL keys joined).
+//!  * M3 symmetric_hash_join.rs — prune length + 1: DETECTED after 328 cases (sorted variant, Band filter).
+//!  * M4 piecewise_merge_join/classic_join.rs — `<`/`>` also accept equality: DETECTED after 4 cases.
+//!  * M5 nested_loop_join.rs — left visited-bitmap index drops `l_start_index` in
+//!    process_left_range_join: NOT detected by the first generator (1124 NestedLoop cases): the
+//!    range path needs batch_size / right_rows > 10 and a left side longer than that ratio, which
+//!    batch sizes {1,2,3,5,8192} × ≤ 10 rows never produced. Generator widened (batch sizes 12 and 25,
+//!    nested-loop left side up to 2·max+2 rows) and re-probed: see the line below.
+//!  * M5 re-probe: RESULT_M5
+//!
+//! `VF_C05_OP` / `VF_CASES` are probe aids only (default off; the evidence run never sets them).
 use crate::data::*;
 use crate::source::*;
 use arrow::compute::SortOptions;
@@ -320,7 +358,7 @@ fn case_strategy(tier: Tier) -> BoxedStrategy<Case> {
                 _ => ALL_JT.to_vec(),
             };
             let filt = match op {
-                Op::HashNullAware | Op::Cross | Op::Piecewise => Just(None).boxed(),
+                Op::Cross | Op::Piecewise => Just(None).boxed(),
                 _ => filter_spec(),
             };
             let mem = match op {
@@ -354,6 +392,9 @@ fn case_strategy(tier: Tier) -> BoxedStrategy<Case> {
             );
             (core, opts).prop_map(move |((jt, null_eq_null, left, right, filter, batch_size, enforce_batch, nparts), (sort, shj_part, shj_sorted, nlj_keys, pw_op, phj, projection, fetch, mem, consume, threads))| {
                 let null_eq_null = if op == Op::HashNullAware { false } else { null_eq_null };
+                // the builder rejects null-aware RightAnti with a filter; null-aware LeftAnti with a
+                // filter is what the planner produces for a correlated `NOT IN`
+                let filter = if op == Op::HashNullAware && jt == JT::RightAnti { None } else { filter };
                 let projection = if matches!(op, Op::HashCollect | Op::HashPart | Op::NestedLoop | Op::SortMerge) { projection } else { None };
                 let fetch = if matches!(op, Op::HashCollect | Op::HashPart) { fetch } else { None };
                 // the sorted symmetric variant needs a filter over both payload columns
@@ -498,18 +539,33 @@ fn reference(case: &Case, pred: &Pred) -> Reference {
     let mut out: Vec<Row> = vec![];
     let jt = case.jt;
     if pred.null_aware && matches!(jt, JT::LeftAnti | JT::RightAnti) {
-        // NOT IN: `this` rows whose key is NOT IN the `other` side's keys
-        let (this, other) = if jt == JT::LeftAnti { (&l, &r) } else { (&r, &l) };
-        let this_m = if jt == JT::LeftAnti { &lm } else { &rm };
-        if other.is_empty() {
-            out = this.clone();
-        } else if other.iter().any(|o| o[0].is_null()) {
-            // x NOT IN (.., NULL, ..) is never TRUE
-        } else {
-            for (i, t) in this.iter().enumerate() {
-                if !t[0].is_null() && this_m[i] == 0 {
-                    out.push(t.clone());
+        // `this.key NOT IN (SELECT other.key FROM other WHERE filter(this, other))`: with S = the
+        // other-side rows that pass the (correlated) filter for this row, the row qualifies iff S is
+        // empty, or its key is non-NULL and S holds neither a NULL key nor an equal key. Without a
+        // filter S is the whole other side.
+        let left_is_this = jt == JT::LeftAnti;
+        let (this, other) = if left_is_this { (&l, &r) } else { (&r, &l) };
+        for (i, t) in this.iter().enumerate() {
+            let mut s_empty = true;
+            let mut blocked = false;
+            for (j, o) in other.iter().enumerate() {
+                let passes = match pred.filter {
+                    None => true,
+                    Some(f) => {
+                        let (a, ai, b, bi) = if left_is_this { (&t[nk], i, &o[nk], j) } else { (&o[nk], j, &t[nk], i) };
+                        eval_filter(f, a, ai as i64, b, bi as i64) == Some(true)
+                    }
+                };
+                if !passes {
+                    continue;
                 }
+                s_empty = false;
+                if t[0].is_null() || o[0].is_null() || t[0] == o[0] {
+                    blocked = true;
+                }
+            }
+            if s_empty || !blocked {
+                out.push(t.clone());
             }
         }
     } else {
@@ -1049,6 +1105,9 @@ impl Property for C05 {
 fn known_shape(case: &Case) -> Option<String> {
     if case.op == Op::SymHash && case.null_eq_null && case.left.rows.iter().chain(case.right.rows.iter()).any(|r| r.k.iter().any(|v| v.is_null())) {
         return Some("shj:null-equals-null:null-key".into());
+    }
+    if case.op == Op::HashNullAware && case.jt == JT::LeftAnti && case.filter.is_some() {
+        return Some("hash-null-aware:left-anti:with-filter".into());
     }
     if case.op != Op::NestedLoop || case.mem.is_none() {
         return None;
